@@ -183,12 +183,16 @@ def FC(e, NB, L, memo, tiers):
   return r
 ALL = ('quick', 'thorough'); TH = ('thorough',)
 for memo in (0, 1):
-  for (NB, L, tiers) in ((2, 3, ALL), (1, 2, ALL), (2, 4, TH), (1, 4, TH), (2, 5, TH)):
+  for (NB, L, tiers) in ((2, 3, ALL), (1, 2, ALL), (2, 4, TH), (1, 4, TH), (3, 3, TH), (2, 5, TH)):
     UNIT['runs'].append(RUN('h_find', NB, L, memo, tiers))
     for e in CALLERS: UNIT['runs'].append(FC(e, NB, L, memo, tiers))
   # cross-checks (thorough): callers with the real find inlined; full-width words
   for e in CALLERS[:-1]:
-    r = RUN(e, 2, 3, memo, TH); r['id'] += '_real'; r['timeout'] = 3000; UNIT['runs'].append(r)
+    if e == 'h_insert':
+      for w in range(5):
+        r = RUN(e, 2, 3, memo, TH); r['id'] += '_real_w%d' % w; r['defs']['XV_ONLY_WHICH'] = w; r['timeout'] = 3000; UNIT['runs'].append(r)
+    else:
+      r = RUN(e, 2, 3, memo, TH); r['id'] += '_real'; r['timeout'] = 3000; UNIT['runs'].append(r)
   UNIT['runs'].append(RUN('h_find', 2, 3, memo, TH, word='uintptr_t'))
   for e in ('h_inc', 'h_erase_it', 'h_insert'): UNIT['runs'].append(FC(e, 2, 3, memo, TH)); UNIT['runs'][-1]['defs']['XV_WORD'] = 'uintptr_t'; UNIT['runs'][-1]['id'] += '_w64'
 for memo in (0, 1):
